@@ -381,6 +381,14 @@ class Prop(object):
                     o2 = self._load(cls, bad)
                 reported = any('crc' in str(x.message).lower() for x in w)
                 oc = 'warned' if reported else 'silent'
+                if reported:
+                    # the same text a second time (as bytes this time): what was reported once is reported again
+                    with warnings.catch_warnings(record=True) as w2:
+                        warnings.simplefilter('always')
+                        self._load(cls, bad.encode('utf-8') if isinstance(bad, str) else bad)
+                    if not any('crc' in str(x.message).lower() for x in w2):
+                        oc = 'silent'
+                        what = what + ' (second load of the same text)'
             except Exception:
                 oc, o2 = 'raised', None
             r.outcomes[('consistent:' if consistent else 'inconsistent:') + oc] += 1
@@ -490,6 +498,13 @@ class Prop(object):
                         reported = any('crc' in str(x.message).lower() for x in w)
                         oc = 'warned' if reported else 'silent'
                         got = bytes(d['body'])
+                        if reported:
+                            # the same text a second time: what was reported once is reported again
+                            with warnings.catch_warnings(record=True) as w2:
+                                warnings.simplefilter('always')
+                                Armorable.ascii_unarmor(bad)
+                            if not any('crc' in str(x.message).lower() for x in w2):
+                                oc = 'silent'
                     except Exception:
                         oc, got = 'raised', None
                     r.outcomes[('consistent:' if consistent else 'inconsistent:') + oc] += 1
